@@ -34,6 +34,12 @@ def split(lst, k):
     k = max(1, min(k, len(lst)))
     return [lst[i::k] for i in range(k)]
 
+class PluginDied(Exception):
+    """the process running the plugin's code died (not a panic) while executing `job`"""
+    def __init__(self, job, what):
+        Exception.__init__(self, what)
+        self.job = job; self.what = what
+
 def run_harness(jobs, workdir, nproc=16, mode="run"):
     """Run jobs in nproc harness processes; returns list of trace files."""
     os.makedirs(workdir, exist_ok=True)
@@ -46,11 +52,26 @@ def run_harness(jobs, workdir, nproc=16, mode="run"):
             for j in ch:
                 f.write(json.dumps(j) + "\n")
         procs.append((subprocess.Popen([VFH, mode, jf, tf], stderr=subprocess.PIPE, text=True), tf))
-    for p, tf in procs:
+    died = None
+    for k, (p, tf) in enumerate(procs):
         _, err = p.communicate()
         if p.returncode != 0:
+            if mode == "run" and (p.returncode < 0 or p.returncode in (101, 134, 139)) and "HARNESS PANIC" not in (err or ""):
+                # the process itself died (abort, stack overflow, allocation failure): that is the plugin's code taking
+                # the process down, which no panic hook can record.  Find the job that does it.
+                died = died or (chunks[k], err)
+                continue
             raise ToolError(f"harness exited {p.returncode}: {err[-2000:]}")
         files.append(tf)
+    if died:
+        ch, err = died
+        for j in ch:
+            jf = f"{workdir}/one.ndjson"; tf = f"{workdir}/one_trace.ndjson"
+            open(jf, "w").write(json.dumps(j) + "\n")
+            q = subprocess.run([VFH, mode, jf, tf], stderr=subprocess.PIPE, text=True)
+            if q.returncode != 0:
+                raise PluginDied(j, f"exit status {q.returncode}: {(q.stderr or '')[-600:]}")
+        raise ToolError(f"harness died ({err[-600:]}) but no single job reproduces it")
     return files
 
 def tlc_trace(spec, cfg, trace, metadir, timeout=900, extra_env=None):
